@@ -399,4 +399,16 @@ pub fn generate(sink: &mut Sink, rng: &mut Rng, n: u64) {
             }
         }
     }
+    // texts rendered from random instants in the format itself (mostly accepted)
+    for _ in 0..(n / 4).max(200) {
+        let f = *rng.pick(&formats);
+        let t = c35::gen_instant(rng, true);
+        let rz = *rng.pick(c35::ZONES);
+        let Some(text) = c35::render(&t, f, rz) else { continue };
+        let a = *rng.pick(&tzargs);
+        let ctx = *rng.pick(c35::ZONES);
+        if let Some(r) = sink.emit("c36.parse_timestamp", &[hex(text.as_bytes()), hex(f.as_bytes()), a.to_string(), ctx.to_string()]) {
+            sink.count(&format!("c36:parse_timestamp_glue_rendered:{}", r.reply.split(' ').next().unwrap_or("")));
+        }
+    }
 }
